@@ -1,6 +1,6 @@
 CONSTANT MaxM = 6
 CONSTANT NCols = 3
-CONSTANT HSeeds = {1, 2, 3}
+CONSTANT HSeeds = {1, 2}
 CONSTANT NPat = 8
 CONSTANT Kinds = {"tm", "krum"}
 SPECIFICATION Spec
